@@ -322,7 +322,12 @@ def outside_domain(dump):
     d = dump.strip()
     if d.startswith("(Inf") or d.startswith("(NaN"):
         return False
-    return "(Inf" in d or "(NaN" in d or "(D 7ff" in d or "(D fff" in d
+    if "(Inf" in d or "(NaN" in d or "(D 7ff" in d or "(D fff" in d:
+        return True
+    # booleans / sets used as operands of arithmetic
+    inner = d[1:]
+    return any(t in inner for t in ("(Bool ", "(Lex ", "(Atom ", "(Interval ", "(FN And", "(FN Or", "(FN Xor", "(FN FiniteSet",
+                                    "(FN Union", "(F2 Equality", "(F2 Unequality", "(F2 LessThan", "(F2 StrictLessThan", "(F1 Not"))
 
 
 def build(ctx):
